@@ -310,8 +310,15 @@ class FnBounds:
                 if X is None or d <= 0:
                     continue
                 dom = self._ineqs_from(ir.conditions_at(f, L["header"]))
-                if any((lambda c_: c_ is not None and c_ >= 0)(X.add(g, -1).constant()) for g in dom):
+                if self._trivially_nonneg(X) or any((lambda c_: c_ is not None and c_ >= 0)(X.add(g, -1).constant()) for g in dom):
                     out.append(X.add(Lin.sym(("k", L["header"])), -d))
+                    # the same quotient computed by an instruction (the loop bound itself): k <= x / d
+                    for Q in f.insts:
+                        if Q.op in ("udiv", "lshr") and Q.ops[1][0] == "c" and Q.bits == t.get("w"):
+                            qd = int(Q.ops[1][1]) if Q.op == "udiv" else (1 << int(Q.ops[1][1]) if int(Q.ops[1][1]) < 32 else 0)
+                            if qd == d and A.value(tuple(Q.ops[0])) == X:
+                                out.append(A.value(("i", Q.id)).add(Lin.sym(("k", L["header"])), -1))
+                                break
                 continue
             try:
                 T = A.scev(t)
@@ -430,6 +437,22 @@ class FnBounds:
                 else:
                     out.append(Lin.const(cv - 1).add(t, -1))
                     out.append(xv.add(t, -1))
+        # quotient and remainder (or low mask) of the same value by the same constant: x == c*(x / c) + (x % c)
+        qs, rs = [], []
+        for I in f.insts:
+            if I.op in ("udiv", "lshr", "urem", "and") and I.ops[1][0] == "c":
+                cv = int(I.ops[1][1])
+                if I.op == "lshr":
+                    cv = (1 << cv) if 0 < cv < 32 else 0
+                if I.op == "and":
+                    cv = cv + 1 if cv > 0 and (cv & (cv + 1)) == 0 else 0       # x & (2^k - 1) = x % 2^k
+                if 1 < cv <= 65536:
+                    (qs if I.op in ("udiv", "lshr") else rs).append((A.value(tuple(I.ops[0])), cv, A.value(("i", I.id)), I.bits))
+        for xq, cq, tq, bq in qs:
+            for xr, cr, tr, br in rs:
+                if cq == cr and xq == xr and bq == br:
+                    e = xq.add(tq, -cq).add(tr, -1)
+                    out += [e, e.scale(-1)]
         self._and_facts = out
         return out
 
